@@ -57,6 +57,20 @@ def build_corpus(tier):
     rej("%s = vb_gparr;" % V("int*[4]"), "tainted_volatile<int*[4]> assigned an array of raw pointers")
     rej("*%s = vb_gparr;" % T("int*(*)[4]"), "*tainted<int*(*)[4]> assigned an array of raw pointers")
     rej("tainted<int*[4], %s> t = vb_gparr; (void)t;" % Mn, "tainted<int*[4]> = array of raw pointers")
+    # arrays of raw (function) pointers in either array spelling, against every destination whose sandbox representation could hold an
+    # address, under the foreign ABI (M) and the host ABI (H: the representation of the bundled backends)
+    Hn = "H<@N>"
+    srcs = [("vb_gparr", "int*[4]"), ("vb_sarr", "std::array<int*,4>"), ("vb_gfarr", "int(*[4])(int)"), ("vb_sfarr", "std::array<int(*)(int),4>")]
+    dsts = ["int*[4]", "unsigned long long[4]", "unsigned long[4]", "void*[4]", "int (*[4])(int)"] + ([] if tier == "quick" else ["long[4]", "unsigned int[4]", "long long[4]", "const int*[4]", "char*[4]"])
+    for sexpr, sdesc in srcs:
+        for d in dsts:
+            for mtag, mdesc in ((Mn, "foreign ABI"), (Hn, "host ABI")):
+                rej("%s = %s;" % (V(d, mtag), sexpr), "tainted_volatile<%s> (%s) assigned %s of raw pointers" % (d, mdesc, sdesc), group="ptr-array")
+                if tier != "quick" or d in ("int*[4]", "unsigned long long[4]"):
+                    rej("%s = %s;" % (T(d, mtag), sexpr), "tainted<%s> (%s) assigned %s of raw pointers" % (d, mdesc, sdesc), group="ptr-array")
+    for mtag, mdesc in ((Mn, "foreign ABI"), (Hn, "host ABI")):
+        acc("%s = vb_lv<std::array<unsigned long, 4>>(); %s = vb_lv<unsigned long[4]>();" % (V("unsigned long[4]", mtag), V("unsigned long[4]", mtag)), "control: tainted_volatile<unsigned long[4]> (%s) assigned arrays of integers" % mdesc, group="ptr-array")
+        acc("%s = %s; %s = nullptr;" % (V("int*", mtag), T("int*", mtag), V("int*", mtag)), "control: pointer stores (%s)" % mdesc, group="ptr-array")
     # ---- wrappers of another sandbox type into tainted (application memory)
     rej("tainted<int*, %s> t = %s; (void)t;" % (Mn, T("int*", other)), "tainted<int*> initialised from another sandbox type's tainted")
     rej("%s = %s;" % (T("int*"), T("int*", other)), "tainted<int*> assigned another sandbox type's tainted")
